@@ -234,7 +234,7 @@ fn behaviour(ctx: &mut Ctx, rng: &mut Rng) {
         }
     }
     // new(n) is builder().max_capacity(n).build(): RandomState hashers, so only hash-independent facts
-    for n in [0u64, 1, 5, 100] {
+    for n in [0u64, 1, 5, 100, 300, 1000, 5000] {
         let a = mini_moka::sync::Cache::<u32, u32>::new(n);
         let b = mini_moka::sync::Cache::<u32, u32>::builder().max_capacity(n).build();
         let ua = mini_moka::unsync::Cache::<u32, u32>::new(n);
@@ -266,6 +266,18 @@ fn behaviour(ctx: &mut Ctx, rng: &mut Rng) {
         let want: Vec<Option<u32>> = (0..n as u32 + 1).map(|k| if (k as u64) < n { Some(k) } else { None }).collect();
         if ra != rb || rua != rub || ra != want || rua != want {
             ctx.violate("config:new-differs-from-builder", format!("capacity {}: new() gave {:?} / {:?}, builder gave {:?} / {:?}, expected {:?}", n, ra, rua, rb, rub, want), "new");
+        }
+        // the popularity table is sized from the configuration and the counters, never from the hashes: after
+        // the same operations both caches must have the same table length and the same aging period
+        let dims = |s: mini_moka::verif::VerifSketch| (s.table_len(), s.sample_size());
+        let (da, db, dua, dub) = (dims(a.verif_sketch()), dims(b.verif_sketch()), dims(ua.verif_sketch()), dims(ub.verif_sketch()));
+        ctx.report.stats.inc("new_vs_builder_sketch_dimension_checks");
+        if da != db || dua != dub {
+            ctx.violate(
+                "config:new-differs-from-builder",
+                format!("capacity {}: popularity table (length, aging period) of new() = {:?} / {:?}, of builder().max_capacity().build() = {:?} / {:?} after the same operations", n, da, dua, db, dub),
+                "new",
+            );
         }
     }
 }
@@ -320,6 +332,13 @@ fn differential(ctx: &mut Ctx, rng: &mut Rng, pairs: u64) {
                     String::new()
                 }
                 Op::ArmFault { .. } => String::new(),
+                Op::Gets { k, n } => {
+                    let mut last = None;
+                    for _ in 0..n {
+                        last = c.get(k);
+                    }
+                    format!("{:?}", last)
+                }
                 Op::Advance { ns } => {
                     c.advance(ns);
                     String::new()
